@@ -1,4 +1,5 @@
 import SyneTune.Lemmas.TunerC12
+import SyneTune.Lemmas.TunerWitnessData
 /-
 C12 — tuning terminates on the stopping criterion and leaves nothing running.
 Property theorems only.  Model: `Model/Tuner.lean`, `Model/StoppingCriterion.lean`,
@@ -133,32 +134,6 @@ theorem results_stored (s : LState) (a : Ans) (h : (step s a).pc = .finAll) :
 
 /-! ### counters -/
 
-/-- a list of statuses without `in_progress` splits into the five remaining classes -/
-theorem partition_statuses (l : List (Nat × St)) (h : ∀ kv ∈ l, kv.2 ≠ .inProgress) :
-    l.length = l.countP (fun kv => kv.2 == .completed) + l.countP (fun kv => kv.2 == .failed)
-      + l.countP (fun kv => kv.2 == .stopped) + l.countP (fun kv => kv.2 == .stopping)
-      + l.countP (fun kv => kv.2 == .paused) := by
-  induction l with
-  | nil => rfl
-  | cons kv l ih =>
-    have ih' := ih (fun x hx => h x (List.mem_cons_of_mem _ hx))
-    have hkv := h kv List.mem_cons_self
-    obtain ⟨k, v⟩ := kv
-    simp only [List.countP_cons, List.length_cons]
-    cases v
-    · exact absurd rfl hkv
-    all_goals (simp only [beq_self_eq_true, if_true, show (St.paused == St.completed) = false from rfl,
-      show (St.paused == St.failed) = false from rfl, show (St.paused == St.stopped) = false from rfl,
-      show (St.paused == St.stopping) = false from rfl, show (St.stopped == St.completed) = false from rfl,
-      show (St.stopped == St.failed) = false from rfl, show (St.stopped == St.stopping) = false from rfl,
-      show (St.stopped == St.paused) = false from rfl, show (St.stopping == St.completed) = false from rfl,
-      show (St.stopping == St.failed) = false from rfl, show (St.stopping == St.stopped) = false from rfl,
-      show (St.stopping == St.paused) = false from rfl, show (St.completed == St.failed) = false from rfl,
-      show (St.completed == St.stopped) = false from rfl, show (St.completed == St.stopping) = false from rfl,
-      show (St.completed == St.paused) = false from rfl, show (St.failed == St.completed) = false from rfl,
-      show (St.failed == St.stopped) = false from rfl, show (St.failed == St.stopping) = false from rfl,
-      show (St.failed == St.paused) = false from rfl, Bool.false_eq_true, if_false]; omega)
-
 /-- **Counters.** After `mark_running_job_as_stopped` no trial counts as running, the number of
 started trials is unchanged, and the counters partition the started trials:
 started = completed + failed + stopped + stopping + paused. -/
@@ -188,5 +163,47 @@ theorem counters (ts : TStatus) :
   · unfold TStatus.numStarted TStatus.numCompleted TStatus.numFailed TStatus.numIn
     simp only [← List.countP_eq_length_filter]
     exact partition_statuses _ hno
+
+/-! ### concrete instances (runs of `Lemmas/TunerWitnessData.lean`) -/
+
+/-- overshoot: `max_num_trials_started = 1`, two workers, `start_jobs_without_delay=True`: the
+first iteration starts two trials (1 + n_workers would allow three), then the criterion is true
+and the loop is left through the `while` test -/
+example :
+    let c : Cfg := { nWorkers := 2, maxFailures := 1, crit := { maxStarted := some 1 } }
+    (run (init c) (Witness.pbtPrefix.take 22)).status.numStarted = 2 ∧
+    (run (init c) (Witness.pbtPrefix.take 22)).pc = .evalStop ∧
+    (run (init c) (Witness.pbtPrefix.take 22 ++ [Witness.τ])).stopReached = true ∧
+    (run (init c) (Witness.pbtPrefix.take 22 ++ [Witness.τ, Witness.τ])).pc = .finTuningEnd := by
+  decide +kernel
+
+/-- nothing running: in the F15 run trial 2 is still in progress when the loop ends; `stop_all`
+sees it and stops it -/
+example :
+    (run (init Witness.f15Cfg) (Witness.f15Prefix ++ Witness.f15Rest)).visible = [0, 1, 2] ∧
+    alookup 2 (run (init Witness.f15Cfg) (Witness.f15Prefix ++ Witness.f15Rest.take 34)).bst = some .inProgress ∧
+    alookup 2 (run (init Witness.f15Cfg) (Witness.f15Prefix ++ Witness.f15Rest)).bst = some .stopped := by
+  decide +kernel
+
+/-- results stored: the two rows of the F15 run are written when `on_tuning_end` returns, before
+`stop_all` asks for the trials -/
+example :
+    (run (init Witness.f15Cfg) (Witness.f15Prefix ++ Witness.f15Rest.take 28)).pc = .finAll ∧
+    ((run (init Witness.f15Cfg) (Witness.f15Prefix ++ Witness.f15Rest.take 28)).stored.map List.length) = some 2 := by
+  decide +kernel
+
+/-- counters of the F15 run when `run()` returns: 3 started = 2 completed + 1 stopped, none running -/
+example :
+    (run (init Witness.f15Cfg) (Witness.f15Prefix ++ Witness.f15Rest)).status.last
+      = [(0, .completed), (1, .completed), (2, .stopped)] ∧
+    (run (init Witness.f15Cfg) (Witness.f15Prefix ++ Witness.f15Rest)).status.numStarted = 3 ∧
+    (run (init Witness.f15Cfg) (Witness.f15Prefix ++ Witness.f15Rest)).status.numCompleted = 2 ∧
+    (run (init Witness.f15Cfg) (Witness.f15Prefix ++ Witness.f15Rest)).status.numRunning = 0 := by
+  decide +kernel
+
+/-- an exception at a call inside the loop (here: `on_trial_result` of the scheduler raises) -/
+example : (run (init Witness.f15Cfg) (Witness.f15Prefix.take 29 ++ [.raise])).pc = .finTuningEnd ∧
+    (run (init Witness.f15Cfg) (Witness.f15Prefix.take 29 ++ [.raise])).err = some .env := by
+  decide +kernel
 
 end SyneTune.C12
